@@ -561,6 +561,19 @@ class SymNum:
             return True
         return bool(SymBool(self.t == z3.ToReal(z3.ToInt(self.t))))
 
+    def to_bytes(self, length=1, byteorder="big", *, signed=False):
+        """int.to_bytes for a non-negative value known (on this path) to fit: big- or little-endian digits.
+        OverflowError is raised when the value may not fit, as int.to_bytes would."""
+        if not self.is_int or signed:
+            raise Unsupported("to_bytes of a non-integer / signed value")
+        from .models import SymBytes
+        if not bool(SymBool(z3.And(self.t >= 0, self.t < 256 ** length))):
+            raise OverflowError("int too big to convert")
+        items = [SymNum((self.t / (256 ** (length - 1 - i))) % 256) for i in range(length)]
+        if byteorder != "big":
+            items.reverse()
+        return SymBytes(items)
+
 
     def __floor__(self):
         return self if self.is_int else SymNum(z3.ToInt(self.t))
